@@ -29,7 +29,7 @@ def record(cfg, path, call):
     drv = reach(cfg, path)
     pre = drv.project()
     ok, err, emit, ret = drv.apply(call)
-    post = drv.project(queries=not drv.nshift)
+    post = drv.project(queries=not (drv.nshift and drv.cfg.has_seg))
     rec = {"path": path, "pre": pre, "c": call, "ok": ok, "err": err, "emit": emit,
            "ret": ret, "post": post}
     if ok and core.KP_ADDNODE <= call[0] <= core.KP_UPDATTRS:
@@ -72,7 +72,7 @@ def record(cfg, path, call):
         rec["r_post"] = post
     # freshly issued node ids (advances a counter that is not observable state: asked last)
     try:
-        rec["newids"] = [int(x) for x in drv.tracks._get_new_node_ids(3)]
+        rec["newids"] = [int(x) + drv.nshift for x in drv.tracks._get_new_node_ids(3)]
     except Exception as e:  # noqa: BLE001
         rec["newids"] = [-1, -1, -1]
     return rec
